@@ -265,4 +265,29 @@ MUTANTS = {
         "edits": [("Lib/fontTools/varLib/__init__.py", "                filename = os.path.basename(vf.filename)\n", "                filename = os.path.basename(vf.filename)\n                if any(os.path.basename(p) == filename for p in vf_name_to_output_path.values()):\n                    filename = vf.filename\n")],
         "check": ["C20", "--tier", "quick", "--only", "text"],
     },
+    # ---- mirrors of round 3/4 changes and of the fixes found then
+    "c19_writeinfo_keeps_old_file": {
+        "edits": [("Lib/fontTools/ufoLib/__init__.py", "            self.removePath(FONTINFO_FILENAME, force=True, removeEmptyParents=False)", "            pass")],
+        "check": ["C19", "--tier", "quick", "--only", "ufo"],
+    },
+    "c16_woff_version_pinned_on_flavordata": {
+        "edits": [("Lib/fontTools/ttLib/sfnt.py", "                    self.majorVersion, self.minorVersion = struct.unpack(\n                        \">HH\", self.headTable[4:8]\n                    )", "                    self.majorVersion, self.minorVersion = struct.unpack(\n                        \">HH\", self.headTable[4:8]\n                    )\n                    data.majorVersion, data.minorVersion = self.majorVersion, self.minorVersion")],
+        "check": ["C16", "--tier", "quick", "--only", "hist,hist_ensure,hist_fail"],
+    },
+    "c04_os2_char_range_needs_loaded_cmap": {
+        "edits": [("Lib/fontTools/ttLib/tables/O_S_2f_2.py", '        if "cmap" not in ttFont:\n            return\n        codes = set()', '        if not ttFont.isLoaded("cmap"):\n            return\n        codes = set()')],
+        "check": ["C04", "--tier", "quick", "--only", "save"],
+    },
+    "c06_really_zero_ignores_devices": {
+        "edits": [("Lib/fontTools/otlLib/optimize/gpos.py", "    return (v1 is None or v1.getEffectiveFormat() == 0) and (\n        v2 is None or v2.getEffectiveFormat() == 0", "    return (v1 is None or v1.getEffectiveFormat() & 0x000F == 0) and (\n        v2 is None or v2.getEffectiveFormat() & 0x000F == 0")],
+        "check": ["C06", "--tier", "quick", "--only", "fea"],
+    },
+    "c01_post_empty_name_replaced": {
+        "edits": [("Lib/fontTools/ttLib/tables/_p_o_s_t.py", "            if glyphName in self.mapping:\n                psName = self.mapping[glyphName]\n            else:\n                psName = glyphName\n            if psName in extraDict:", "            psName = self.mapping.get(glyphName) or glyphName\n            if psName in extraDict:")],
+        "check": ["C01", "--tier", "quick"],
+    },
+    "c16_observing_changes_head": {
+        "edits": [("Lib/fontTools/ttLib/tables/_h_e_a_d.py", "        if ttFont.recalcTimestamp:\n            self.modified = timestampNow()", "        if ttFont.recalcTimestamp:\n            self.modified = timestampNow()\n        self.fontRevision = round(self.fontRevision, 2)")],
+        "check": ["C16", "--tier", "quick", "--only", "hist,hist_ensure"],
+    },
 }
